@@ -27,6 +27,7 @@ pub fn generate_diagnostics<S: VersionStorer>(
 
     packages
         .iter()
+        .filter(|package| package.is_on_one_line(content))
         .filter_map(|package| {
             let result = compare_version(storer, matcher, &package.name, &package.version).ok()?;
             let mut diagnostic = create_diagnostic(package, &result)?;
